@@ -1468,7 +1468,10 @@ func (t *table) gc(now bigtable.Timestamp, done <-chan struct{}, force bool) {
 				}
 			}
 			if changed {
-				t.updateRow(r)
+				// Replace in place; rows must not be deleted while iterating
+				// (the btree engine skips rows when its structure changes).
+				r, _ := scrubRow(r, t.cols())
+				t.rows.ReplaceOrInsert(r)
 			}
 		}
 		i++
